@@ -355,3 +355,59 @@ def truth_table(body, eb=None, max_atoms=6):
             bb = ss[0]
         table[assign] = last_ret
     return atoms, table
+
+
+def control_guards(body, bb, eb=None):
+    """the boolean tests block bb is *control dependent* on within one pass through the code
+    : every switch s with a successor t such that bb post-dominates t but not s.
+    Dominating guards are a special case; what they miss - and this finds - are conditions whose
+    edges merge before bb: the parts of `if a && b { continue }`, or `match` arms that share a
+    block.  Returns normalised guards as `guards` does: (kind, expr), the outcome that leads
+    towards bb."""
+    from .expr import ExprBuilder as _EB
+    eb = eb or _EB(body)
+    dom = body.dominators()
+    reach = [b for b in body.reachable() if not body.is_cleanup(b)]
+    rs = set(reach)
+    # post-dominators w.r.t. the normal returns (loops are assumed to terminate: a loop header is
+    # post-dominated by what follows the loop; a `break` *after* a statement does not decide
+    # whether that statement runs in this iteration, a `continue` before it does)
+    pdom = body.post_dominators()
+    # direct control dependence of any block x on a switch edge (s -> t): x post-dominates t (or
+    # is t) and does not post-dominate s; then the transitive closure from bb (a store inside a
+    # loop depends on the loop test, which depends on an early return in front of the loop)
+    sw = [(sb, t, arms) for sb, t, arms in body.switch_edges() if sb in rs and not body.is_cleanup(sb)]
+    # arms that cannot reach a return (the `unreachable` arm of an enum match, a panic) are
+    # post-dominated by everything vacuously: they decide nothing
+    rets = body.return_blocks()
+    live = set(x for x in rs if any(body.can_reach(x, r) for r in rets))
+
+    def direct(x):
+        res = []
+        for sb, t, arms in sw:
+            if sb == x or x in pdom.get(sb, ()):
+                continue
+            for v, tg in arms:
+                if tg not in rs or tg not in live:
+                    continue
+                if x == tg or x in pdom.get(tg, ()):
+                    res.append((sb, t, arms, v))
+        return res
+    out = []
+    seen = {bb}
+    work = [bb]
+    while work:
+        x = work.pop()
+        for sb, t, arms, v in direct(x):
+            if t.get("discr_ty") == "bool":
+                val = ("not", [y for y, _ in arms if y is not None]) if v is None else v
+                saved = (eb.cur_bb, eb.cur_idx)
+                eb.at(sb)
+                g = norm_guard(body, eb, t, val)
+                eb.cur_bb, eb.cur_idx = saved
+                if g not in out:
+                    out.append(g)
+            if sb not in seen:
+                seen.add(sb)
+                work.append(sb)
+    return out
